@@ -155,6 +155,9 @@ func runSpace(rep *Report) {
 		cfg := engine.RandomConfig(r)
 		if cfg.MaxPages == 0 {
 			cfg.MaxPages = uint64(65536/cfg.PageSize) + uint64(r.Intn(50))
+			if uint64(cfg.InitMeta) >= cfg.MaxPages-2 {
+				cfg.InitMeta = 4 // as in RandomConfig: the initial meta area has to fit into the file
+			}
 		}
 		p := engine.DefaultParams()
 		p.KeepFill = 50 + r.Intn(50)
